@@ -26,10 +26,11 @@ def outside(tag, R, C):
     if tag == 'Upper': return {i * C + j for i in range(R) for j in range(C) if j < i}
     return set()
 
-def tmatmul_case(ty, M, K, N, lt, rt, cfg, kind='own'):
+def tmatmul_case(ty, M, K, N, lt, rt, cfg, kind='own', fam=None, form=None):
     a = Buf('a', ty, M * K, 'in', atoms='A'); b = Buf('b', ty, K * N, 'in', atoms='B'); c = Buf('c', ty, M * N, 'out')
     T = ty.cpp
     call = 'tmatmul<UpLoType::%s,UpLoType::%s>' % (lt, rt)
+    fam = fam or kind
     if kind == 'own':
         body = '    %s %s\n    Tensor<%s,%d,%d> C = %s(A,B);\n    %s' % (town(ty, (M, K), 'a'), town(ty, (K, N), 'b'), T, M, N, call, copy_out('C', 'c', M * N))
     elif kind == 'map':       # TensorMap operands go through the expression overload (evaluated into temporaries)
@@ -53,8 +54,11 @@ def tmatmul_case(ty, M, K, N, lt, rt, cfg, kind='own'):
     zin = {}
     if za: zin['a'] = za
     if zb: zin['b'] = zb
-    return Case('C17/%s/%s%s/%s/%dx%dx%d/%s' % (kind, SHORT[lt], SHORT[rt], ty.name, M, K, N, cfg.tag()), 'C17', body, [a, b, c], ens, 'ATOMS', cfg,
-                zero_in=zin)
+    # large instantiations (thorough tier): the DFCC-instrumented program does not fit the 45 s budget; ask for the assertion
+    # form of the same clauses directly instead of timing out first (reported as enforced_by=assertion)
+    kw = {'form': form} if form else {}
+    return Case('C17/%s/%s%s/%s/%dx%dx%d/%s' % (fam, SHORT[lt], SHORT[rt], ty.name, M, K, N, cfg.tag()), 'C17', body, [a, b, c], ens, 'ATOMS', cfg,
+                zero_in=zin, **kw)
 
 def interesting(isa, ty, B):
     """shapes that put the k-range clipping next to every block / vector / remainder boundary of the kernel:
@@ -73,6 +77,7 @@ def cases(tier, seed):
     pairs = [(l, r) for l in TAGS for r in TAGS]
     B = 13 if thorough else 6
     box = [(M, K, N) for M in range(1, B + 1) for K in range(1, B + 1) for N in range(1, B + 1)]
+    nfix = 0
     for isa in isas(tier):
         for std in (['c++14', 'c++17'] if thorough else ['c++14']):
             cfg = Cfg(isa, std)
@@ -81,21 +86,25 @@ def cases(tier, seed):
                 for (lt, rt) in pairs:
                     if thorough:
                         if std == 'c++14':
-                            shapes = set(sample(rng, box, 40)) | set(sample(rng, hot, 30))
-                            shapes |= {(n, n, n) for n in range(1, B + 1)}
+                            shapes = set(sample(rng, box, 5)) | set(sample(rng, hot, 4))
+                            shapes |= {(n, n, n) for n in sample(rng, range(1, B + 1), 2)}
                         else:
-                            shapes = set(sample(rng, box, 8)) | set(sample(rng, hot, 6))
+                            shapes = set(sample(rng, box, 1)) | set(sample(rng, hot, 1))
                     else:
-                        # square, tall, wide and deep trapezoids + a random sample of the box
-                        shapes = {(4, 4, 4), (5, 5, 5), (6, 6, 6), (6, 3, 5), (3, 6, 4), (5, 2, 6), (2, 5, 3)}
-                        shapes = set(sample(rng, sorted(shapes), 3)) | set(sample(rng, box, 3)) | set(sample(rng, hot, 2))
+                        # one of: squares, tall / wide / deep trapezoids, degenerate edges (rotating) + random shapes of the box
+                        # + one shape next to a block / vector / remainder boundary of the kernel
+                        fixed = [(4, 4, 4), (5, 5, 5), (6, 6, 6), (6, 3, 5), (3, 6, 4), (5, 2, 6), (2, 5, 3), (1, 6, 6), (6, 6, 1), (6, 1, 6), (4, 6, 5), (3, 3, 3)]
+                        shapes = {fixed[nfix % len(fixed)]} | set(sample(rng, box, 2)) | set(sample(rng, hot, 1))
+                        nfix += 1
                     for (M, K, N) in sorted(shapes):
                         kind = 'own'
                         if thorough and rng.random() < 0.15: kind = rng.choice(['map', 'expr'])
-                        out.append(tmatmul_case(ty, M, K, N, lt, rt, cfg, kind))
+                        out.append(tmatmul_case(ty, M, K, N, lt, rt, cfg, kind, form='harness' if M * K * N > 250 else None))
                     # vector operands and the expression overloads
                     if (lt, rt) in (('Lower', 'General'), ('Upper', 'General'), ('General', 'Lower'), ('General', 'Upper'), ('Lower', 'Upper')) or thorough:
-                        for (M, K) in sample(rng, [(m, k) for m in range(1, B + 1) for k in range(1, B + 1)], 1 if not thorough else 3):
+                        if not thorough and rng.random() < 0.5: continue
+                        if thorough and std == 'c++17': continue
+                        for (M, K) in sample(rng, [(m, k) for m in range(1, B + 1) for k in range(1, B + 1)], 1):
                             out.append(tmatmul_case(ty, M, K, 1, lt, rt, cfg, 'matvec'))
                             out.append(tmatmul_case(ty, 1, K, M, lt, rt, cfg, 'vecmat'))
                     if not thorough and isa == 'avx2' and ty is DBL:
@@ -107,10 +116,18 @@ def cases(tier, seed):
             for mac in macs:
                 cfgm = Cfg(isa, 'c++14', macros=(mac,))
                 V = vec_elems(isa, DBL)
-                for (lt, rt) in (pairs if thorough else sample(rng, pairs, 3)):
+                for (lt, rt) in (pairs if thorough else sample(rng, pairs, 2)):
                     for (M, K, N) in [(9, 7, 2 * V + 3), (5, 6, 4 * V)]:
                         if not thorough and max(M, K, N) > 13: continue
-                        out.append(tmatmul_case(DBL, M, K, N, lt, rt, cfgm, 'own'))
+                        out.append(tmatmul_case(DBL, M, K, N, lt, rt, cfgm, 'own', form='harness' if M * K * N > 250 else None))
+        # FASTOR_MATMUL_INNER_BLOCK_SIZE=5 with N >= 5V: the five-column-block kernel (own family 'ib5')
+        if isa == 'sse2' or (thorough and isa in ('sse4.2', 'avx')):
+            cfg5 = Cfg(isa, 'c++14', macros=('FASTOR_MATMUL_INNER_BLOCK_SIZE=5',))
+            for ty in ([DBL] if not thorough else types):
+                V = vec_elems(isa, ty)
+                for (lt, rt) in ([('General', 'General'), ('Lower', 'Upper')] if not thorough else pairs):
+                    out.append(tmatmul_case(ty, 4, 3, 5 * V + 1, lt, rt, cfg5, 'own', fam='ib5'))
+                out.append(tmatmul_case(ty, 4, 3, 5 * V - 1, 'General', 'General', cfg5, 'own'))   # below 5V: block of five not entered
     seen = set(); res = []
     for c in out:
         if c.cid not in seen: seen.add(c.cid); res.append(c)
